@@ -4,6 +4,7 @@ package main
 
 // blsprobe: key-dependent behaviour of the BLS12-381 scheme: fresh clusters, every replica signs, every other verifies.
 import (
+	"os"
 	"flag"
 	"fmt"
 
@@ -21,6 +22,18 @@ func blsProbe(args []string) error {
 	agg := fs.Int("agg", 0, "aggregate probe: this many rounds of sign x3, combine, verify on one cluster")
 	_ = fs.Parse(args)
 	if *agg > 0 {
+		if os.Getenv("HSVERIF_GCSTRESS") != "" {
+			// allocation pressure in the background (does the scheme depend on where the collector runs?)
+			go func() {
+				var keep [][]byte
+				for {
+					keep = append(keep, make([]byte, 1<<12))
+					if len(keep) > 1<<10 {
+						keep = nil
+					}
+				}
+			}()
+		}
 		var secs []*hx.Sec
 		bad := 0
 		for i := 0; i < *agg; i++ {
